@@ -159,6 +159,29 @@ theorem float_precision (p : Nat) (h : p < 65536) :
   have : p ≤ 65535 := by omega
   simp [segLookup, this, step, State.withCfg]
 
+/-! ### the scanner's `\xHH` escape and the option word -/
+
+/-- the hex-digit alphabet of the probe: `0123456789abcdefABCDEF` -/
+def hexDigitAt (i : Nat) : Nat :=
+  if i < 10 then 48 + i else if i < 16 then 97 + (i - 10) else 65 + (i - 16)
+
+/-- what the `.appendHexChar` action of Scanner.lean appends for the lexeme `\xHH`
+(`digitsVal 16 (text.drop 2) % 256`), encoded like the probe's table: the byte, +1000 when
+the rest of the literal is still visible behind it (a byte 0 ends the C string) -/
+def modelHexEscape (x i j : Nat) : Int :=
+  let text : Bytes := [92, if x == 1 then 88 else 120, hexDigitAt i, hexDigitAt j]
+  let b := digitsVal 16 (text.drop 2) % 256
+  if b == 0 then 0 else (b : Int) + 1000
+
+theorem hex_escape_table :
+    allFrom (fun n => modelHexEscape (n / 484) (n / 22 % 22) (n % 22) == Generated.hexEscapeTable.getD n (-1)) 0 968 = true := by
+  decide +kernel
+
+/-- `config_set_option(1 <<< bit, flag)` on the initial option word, every bit position -/
+theorem option_set_table :
+    allFrom (fun n => (Config.init.setOption (2 ^ (n / 2)) (n % 2 == 1)).options == Generated.optionSetTable.getD n 0) 0 64 = true := by
+  decide +kernel
+
 /-! ### the writer's string escaping -/
 
 /-- what the writer prints for every one-byte string 1..255 is what `escapeString` gives;
